@@ -378,9 +378,17 @@ type callSpec struct {
 	PA        string `json:"plugin_annotations"` // none | nil | map
 	pa        map[string]string
 	Push      string `json:"push"` // ok | err | refdel
+	// fault family (mode flt)
+	Fault      string `json:"store_fault,omitempty"`
+	SameSig    bool   `json:"signer_repeats_envelope_bytes,omitempty"`
+	faultAt    int
+	faultAfter bool
+	faultCtx   bool
+	sigFixed   string
 	// observation
-	Result string `json:"obs_result"`
-	Err    string `json:"obs_error,omitempty"`
+	Result string   `json:"obs_result"`
+	Err    string   `json:"obs_error,omitempty"`
+	Ops    []string `json:"obs_store_operations,omitempty"`
 }
 
 type histDesc struct {
@@ -418,10 +426,10 @@ func randMap(r *Rng, pool []string, n int) map[string]string {
 
 func runC11(a *Args) error {
 	rng := NewRng(a.Seed)
-	prelude := "From NV Require Import Base C11_Model.\nOpen Scope string_scope.\n"
-	w := NewCaseWriter(a, "C11", prelude, "case", "run")
-	w.ShardSize = 400
-	w.Rule = "(systematic) for 3 annotation sets of the artifact (empty-valued, two entries, nil) x 22 second steps B (colliding / same-value / reserved exact, without dot, with dot / near misses of the prefix / digest resolving elsewhere / empty media type / signer error / push error / zero time / other artifact colliding there or only here / by digest / full, tag+digest, upper-case host, reference-less forms / empty and nil metadata / plugin annotations / other chain and time) the sequences A-B-A, B-A-B, B-B-A on ONE repository instance with the same option and map objects for equal steps, in both modes; (random) histories of 1-3 consecutive notation.SignOCI calls with an instrumented signer against (mem) an in-memory repository whose Resolve returns its stored descriptor with the stored annotation map, and (oci) a real on-disk OCI layout opened with registry.NewOCIRepository whose tag entry carries annotations. Resolved descriptors with nil / empty / 1-3 annotations; user metadata nil / empty / disjoint / colliding with an annotation / under the reserved prefix (and near misses of the prefix) / mixed; references: tag, digest, full reference with tag or digest, unknown, digest resolving to another digest; option errors; signer errors, nil SignerInfo, zero signing time, chains of 0-3 certificates; signer with/without PluginAnnotations (nil, empty, populated, stale thumbprint); push ok / error / referrers-index-deletion error; 60% of the later calls repeat the first call's options with the same map objects. non-trivial = some call reached the signer or was refused for digest mismatch / reserved / colliding metadata; distinct = distinct (input, observation) terms"
+	prelude := "From NV Require Import Base C11_Model C11_Registry.\nOpen Scope string_scope.\n"
+	w := NewCaseWriter(a, "C11", prelude, "xcase", "xrun")
+	w.ShardSize = 270 // quick: 6 shards, one per coqc process of bin/check
+	w.Rule = "(systematic) for 3 annotation sets of the artifact (empty-valued, two entries, nil) x 22 second steps B (colliding / same-value / reserved exact, without dot, with dot / near misses of the prefix / digest resolving elsewhere / empty media type / signer error / push error / zero time / other artifact colliding there or only here / by digest / full, tag+digest, upper-case host, reference-less forms / empty and nil metadata / plugin annotations / other chain and time) the sequences A-B-A, B-A-B, B-B-A on ONE repository instance with the same option and map objects for equal steps, in both modes; (random) histories of 1-3 consecutive notation.SignOCI calls with an instrumented signer against (mem) an in-memory repository whose Resolve returns its stored descriptor with the stored annotation map, and (oci) a real on-disk OCI layout opened with registry.NewOCIRepository whose tag entry carries annotations. Resolved descriptors with nil / empty / 1-3 annotations; user metadata nil / empty / disjoint / colliding with an annotation / under the reserved prefix (and near misses of the prefix) / mixed; references: tag, digest, full reference with tag or digest, unknown, digest resolving to another digest; option errors; signer errors, nil SignerInfo, zero signing time, chains of 0-3 certificates; signer with/without PluginAnnotations (nil, empty, populated, stale thumbprint); push ok / error / referrers-index-deletion error; 60% of the later calls repeat the first call's options with the same map objects; (faults, XFault cases of C11_Registry) ONE registry.NewRepository client over a wrapper around a real on-disk oci.Store that fails exactly one store operation of one call of a 3-call history with the same reference, options and map objects: for 4 variants (tag+metadata / digest+plugin annotations / full reference+COSE+plugin config / empty config blob already in the layout) the operation index ranges over every operation of a recorded clean run (Resolve, Push envelope blob, Exists config, Push config, Push manifest) and one beyond, failing before or after the operation takes effect (plain error or context.DeadlineExceeded), in the first call (fail, good, good) and in the second (good, fail, good); the answer of PushSignature is NOT an input there but computed by the model from the store content (the client keeps no state: every call on the healthy store must succeed and add exactly its signature); plus a signer that repeats its envelope bytes (the layout refuses the second Push of the blob). non-trivial = some call reached the signer or was refused for digest mismatch / reserved / colliding metadata; distinct = distinct (input, observation) terms"
 	w.Assumptions = []string{
 		"every Go map that exists before the first call is a heap object identified by its pointer; a map allocated by SignOCI and handed to one callee is a value (MFresh)",
 		"orasRegistry.ParseReference and digest.Parse are oracles (their answer on the case's reference is an input of the model)",
@@ -429,6 +437,7 @@ func runC11(a *Args) error {
 		"signing times are within years 1..9999 (time.RFC3339 formatting of other years is not modelled)",
 		"the metadata key that Go's map iteration reaches first is recovered from the error message (unobservable otherwise)",
 		"result classes are recognised from fixed error texts / error types of notation-go",
+		"fault family: the store is content addressed (oci.Store): a Push of bytes it holds fails with ErrAlreadyExists, the empty config exists iff the blob {} is held; manifests packed by oras.PackManifest have bytes no other blob of the history has; what the store itself does when an operation fails is observed (the wrapper either skips the operation or performs it and reports failure)",
 	}
 	g := &genCtx{}
 	now := time.Now()
@@ -490,6 +499,32 @@ func runC11(a *Args) error {
 		}
 		if err := g.history(w, rng.Fork(uint64(my)), my, mode, nil); err != nil {
 			return fmt.Errorf("history %d: %w", my, err)
+		}
+	}
+	// fault family: one repository client, the store fails once, the later calls run on the healthy store
+	cleanMemo := map[int][2]int{}
+	cleanOps := func(v int) (int, int) {
+		if c, ok := cleanMemo[v]; ok {
+			return c[0], c[1]
+		}
+		// record a clean run of this variant (always executed, never emitted: ids stay stable)
+		ops, err := g.historyOps(w, rng.Fork(uint64(1000000+v)), int64(900000000+v), "flt", faultScenario(faultPlan{variant: v, faultCall: -1, nCalls: 2}), false)
+		c := [2]int{5, 4}
+		if err == nil && len(ops) == 2 {
+			c = [2]int{ops[0], ops[1]}
+		}
+		cleanMemo[v] = c
+		w.Count("clean_run_store_operations", fmt.Sprintf("v%d first=%d later=%d", v, c[0], c[1]))
+		return c[0], c[1]
+	}
+	for _, fp := range faultPlans(a.Tier, cleanOps) {
+		my := id
+		id++
+		if !w.Want(my) {
+			continue
+		}
+		if err := g.history(w, rng.Fork(uint64(my)), my, "flt", faultScenario(fp)); err != nil {
+			return fmt.Errorf("fault history %s (%d): %w", fp.name(), my, err)
 		}
 	}
 	return w.Close()
@@ -567,6 +602,7 @@ type scenario struct {
 	name         string
 	annV1, annV2 map[string]string
 	steps        []*callSpec // the sequence; Ref is symbolic (see resolveRef)
+	preConfig    bool        // the empty notation config blob is in the layout from the start
 }
 
 // resolveRef turns the symbolic reference of a scenario step into a reference string.
@@ -594,8 +630,17 @@ func resolveRef(sym string, digests map[string]string, bad string) string {
 	return sym
 }
 
+// history runs one history and emits it (emit = false: run only, for the recording of a
+// clean run); it returns the number of store operations of every call (mode flt).
 func (g *genCtx) history(w *CaseWriter, r *Rng, id int64, mode string, scen *scenario) error {
+	_, err := g.historyOps(w, r, id, mode, scen, true)
+	return err
+}
+
+func (g *genCtx) historyOps(w *CaseWriter, r *Rng, id int64, mode string, scen *scenario, emit bool) ([]int, error) {
 	ctx := context.Background()
+	var fs *faultStore
+	var opCounts []int
 	h := newHeap()
 	rec := &recorder{h: h}
 	var repo registry.Repository
@@ -668,12 +713,12 @@ func (g *genCtx) history(w *CaseWriter, r *Rng, id int64, mode string, scen *sce
 	} else {
 		ociDir = filepath.Join(g.fsBase, fmt.Sprintf("h%d", id))
 		if err := os.MkdirAll(ociDir, 0o755); err != nil {
-			return err
+			return nil, err
 		}
 		defer os.RemoveAll(ociDir)
 		store, err := oci.New(ociDir)
 		if err != nil {
-			return err
+			return nil, err
 		}
 		nArt := 1 + r.Intn(2)
 		if scen != nil {
@@ -681,24 +726,38 @@ func (g *genCtx) history(w *CaseWriter, r *Rng, id int64, mode string, scen *sce
 		}
 		extras := map[string]map[string]string{}
 		for i := 0; i < nArt; i++ {
-			man, err := oras.PackManifest(ctx, store, oras.PackManifestVersion1_1, fmt.Sprintf("application/vnd.c11.test%d", i), oras.PackManifestOptions{
-				ManifestAnnotations: map[string]string{kCreated: "2024-01-02T03:04:05Z", "n": fmt.Sprint(i)}})
+			popts := oras.PackManifestOptions{ManifestAnnotations: map[string]string{kCreated: "2024-01-02T03:04:05Z", "n": fmt.Sprint(i)}}
+			if mode == "flt" && !scen.preConfig {
+				// an artifact with a config and a layer of its own: oras.PackManifest would otherwise write the
+				// empty blob "{}", the very blob the notation manifest config is
+				cfg, err := oras.PushBytes(ctx, store, "application/vnd.c11.config+json", []byte(fmt.Sprintf(`{"c11":%d}`, i)))
+				if err != nil {
+					return nil, err
+				}
+				popts.ConfigDescriptor = &cfg
+				layer, err := oras.PushBytes(ctx, store, "application/vnd.c11.layer", []byte(fmt.Sprintf("layer %d", i)))
+				if err != nil {
+					return nil, err
+				}
+				popts.Layers = []ocispec.Descriptor{layer}
+			}
+			man, err := oras.PackManifest(ctx, store, oras.PackManifestVersion1_1, fmt.Sprintf("application/vnd.c11.test%d", i), popts)
 			if err != nil {
-				return err
+				return nil, err
 			}
 			tag := fmt.Sprintf("v%d", i+1)
 			if err := store.Tag(ctx, man, tag); err != nil {
-				return err
+				return nil, err
 			}
 			if i == 0 && (scen != nil || r.Chance(1, 2)) {
 				// oci.Store.Tag accepts any string: a tag spelled like the digest of something
 				// else (a digest reference that resolves to another digest), and a tag that
 				// only looks like a digest
 				if err := store.Tag(ctx, man, D[2]); err != nil {
-					return err
+					return nil, err
 				}
 				if err := store.Tag(ctx, man, "sha256:abc"); err != nil {
-					return err
+					return nil, err
 				}
 			}
 			if scen != nil {
@@ -712,10 +771,10 @@ func (g *genCtx) history(w *CaseWriter, r *Rng, id int64, mode string, scen *sce
 		var idx ocispec.Index
 		b, err := os.ReadFile(idxPath)
 		if err != nil {
-			return err
+			return nil, err
 		}
 		if err := json.Unmarshal(b, &idx); err != nil {
-			return err
+			return nil, err
 		}
 		for i := range idx.Manifests {
 			tag := idx.Manifests[i].Annotations[ocispec.AnnotationRefName]
@@ -725,11 +784,22 @@ func (g *genCtx) history(w *CaseWriter, r *Rng, id int64, mode string, scen *sce
 		}
 		b, _ = json.Marshal(idx)
 		if err := os.WriteFile(idxPath, b, 0o644); err != nil {
-			return err
+			return nil, err
 		}
-		inner, err := registry.NewOCIRepository(ociDir, registry.RepositoryOptions{})
-		if err != nil {
-			return err
+		var inner registry.Repository
+		if mode == "flt" {
+			// ONE repository client over the fault wrapper around a store opened on the finished layout
+			st2, err := oci.New(ociDir)
+			if err != nil {
+				return nil, err
+			}
+			fs = &faultStore{inner: st2, at: -1}
+			inner = registry.NewRepository(fs)
+		} else {
+			inner, err = registry.NewOCIRepository(ociDir, registry.RepositoryOptions{})
+			if err != nil {
+				return nil, err
+			}
 		}
 		repo = &wrapRepo{rec: rec, inner: inner}
 	}
@@ -748,7 +818,11 @@ func (g *genCtx) history(w *CaseWriter, r *Rng, id int64, mode string, scen *sce
 				probes = append(probes, string(d.Digest))
 			}
 		}
-		probes = append(probes, string(ocispec.DescriptorEmptyJSON.Digest))
+		if mode != "flt" {
+			// (mode flt: the empty config is not in the layout before the first signature; oci.Store
+			// resolves the digest of any blob it holds, and the config blob belongs to the signature)
+			probes = append(probes, string(ocispec.DescriptorEmptyJSON.Digest))
+		}
 	}
 	seenDg := map[string]bool{}
 	var tableMaps []map[string]string
@@ -787,7 +861,7 @@ func (g *genCtx) history(w *CaseWriter, r *Rng, id int64, mode string, scen *sce
 	}
 	initialView := map[string]string{}
 	var initialIndex []ocispec.Descriptor
-	if mode == "oci" {
+	if mode != "mem" {
 		initialView = diskView(ctx, ociDir, probes)
 		initialIndex = readIndex(ociDir)
 	}
@@ -961,10 +1035,34 @@ func (g *genCtx) history(w *CaseWriter, r *Rng, id int64, mode string, scen *sce
 	heap0 := h.snapshot()
 
 	var callTerms, obsTerms []string
+	// fault family: the blob contents whose presence in the layout is observed
+	var cands, blobs0 []string
+	if mode == "flt" {
+		seen := map[string]bool{}
+		for k, c := range calls {
+			sg := fmt.Sprintf("s%d#%d", k, id)
+			if c.sigFixed != "" {
+				sg = c.sigFixed
+			}
+			if !seen[sg] {
+				seen[sg] = true
+				cands = append(cands, sg)
+			}
+		}
+		cands = append(cands, "{}")
+		for _, x := range cands {
+			if blobPresent(ociDir, x) {
+				blobs0 = append(blobs0, x)
+			}
+		}
+	}
 	nontrivial := false
 	for k, c := range calls {
 		c.Meta, c.MetaNil = c.meta, c.meta == nil
 		sig := fmt.Sprintf("s%d#%d", k, id)
+		if c.sigFixed != "" {
+			sig = c.sigFixed
+		}
 		ci := g.chains[c.ChainIdx]
 		script := signScript{sig: sig, chain: ci.certs}
 		switch c.Sign {
@@ -1018,7 +1116,18 @@ func (g *genCtx) history(w *CaseWriter, r *Rng, id int64, mode string, scen *sce
 
 		rec.reset()
 		rec.on = true
+		if fs != nil {
+			fs.arm(c.faultAt, c.faultAfter, c.faultCtx)
+		}
 		art, sigDesc, err := notation.SignOCI(ctx, signer, rp, opts)
+		if fs != nil {
+			fs.disarm()
+			c.Ops = fs.ops
+			opCounts = append(opCounts, len(fs.ops))
+			if c.faultAt >= 0 {
+				w.Count("fault_fired", fmt.Sprint(fs.fired))
+			}
+		}
 		rec.on = false
 
 		class, known := classify(err)
@@ -1072,8 +1181,21 @@ func (g *genCtx) history(w *CaseWriter, r *Rng, id int64, mode string, scen *sce
 				}
 			}
 		}
-		callTerms = append(callTerms, CApp("mk_call_in", CBool(c.SignerNil), CBool(c.RepoNil), CStr(c.Ref), parse, CBool(derr == nil),
-			CStr(c.Mt), CZ(c.Expiry), CStr(c.Agent), optAddr(h.track(c.meta)), first, optAddr(h.track(c.pcfg)), signTerm, paTerm, pushTerm))
+		callTerm := CApp("mk_call_in", CBool(c.SignerNil), CBool(c.RepoNil), CStr(c.Ref), parse, CBool(derr == nil),
+			CStr(c.Mt), CZ(c.Expiry), CStr(c.Agent), optAddr(h.track(c.meta)), first, optAddr(h.track(c.pcfg)), signTerm, paTerm, pushTerm)
+		if fs != nil {
+			// the answer of PushSignature is not an input here: the model computes it
+			flt := "None"
+			if c.faultAt >= 0 {
+				kind := "FBefore"
+				if c.faultAfter {
+					kind = "FAfter"
+				}
+				flt = CSome(CPair(CN(int64(c.faultAt)), kind))
+			}
+			callTerm = CApp("mk_fcall", callTerm, CStr(string(sigDesc.Digest)), flt)
+		}
+		callTerms = append(callTerms, callTerm)
 
 		// observation of the call
 		artTerm := "None"
@@ -1097,14 +1219,22 @@ func (g *genCtx) history(w *CaseWriter, r *Rng, id int64, mode string, scen *sce
 			var e error
 			stored, e = diskStored(ctx, ociDir, subjects)
 			if e != nil {
-				return e
+				return nil, e
 			}
 		}
 		st := make([]string, len(stored))
 		for i, s := range stored {
 			st[i] = s.term()
 		}
-		obsTerms = append(obsTerms, CApp("mk_co", trace, h.snapshot(), CList(viewTerms), CList(st)))
+		obsTerm := CApp("mk_co", trace, h.snapshot(), CList(viewTerms), CList(st))
+		if fs != nil {
+			pres := make([]string, len(cands))
+			for i, x := range cands {
+				pres[i] = CBool(blobPresent(ociDir, x))
+			}
+			obsTerm = CApp("mk_fco", obsTerm, CList(fs.ops), CList(pres))
+		}
+		obsTerms = append(obsTerms, obsTerm)
 		if len(rec.signs) > 0 || class == "EDigestMismatch" || class == "EMetaReserved" || class == "EMetaPresent" {
 			nontrivial = true
 		}
@@ -1137,7 +1267,7 @@ func (g *genCtx) history(w *CaseWriter, r *Rng, id int64, mode string, scen *sce
 	if !contract {
 		w.Count("outside_contract", "signer returns a repository map")
 	}
-	if mode == "oci" && contract {
+	if mode != "mem" && contract {
 		final := diskView(ctx, ociDir, probes)
 		for _, p := range probes {
 			if initialView[p] != final[p] {
@@ -1163,9 +1293,16 @@ func (g *genCtx) history(w *CaseWriter, r *Rng, id int64, mode string, scen *sce
 
 	in := CApp("mk_input", heap0, CList(tableTerms), CStrList(probes), CList(callTerms))
 	body := in + " " + CList(obsTerms)
-	term := "(mk_case " + CN(id) + " " + body + ")"
-	w.Add(id, term, hd, body, nontrivial)
-	return nil
+	term := "(XPlain (mk_case " + CN(id) + " " + body + "))"
+	if mode == "flt" {
+		in = CApp("mk_finput", heap0, CList(tableTerms), CStrList(probes), CStrList(blobs0), CStrList(cands), CList(callTerms))
+		body = in + " " + CList(obsTerms)
+		term = "(XFault " + CN(id) + " " + body + ")"
+	}
+	if emit {
+		w.Add(id, term, hd, body, nontrivial)
+	}
+	return opCounts, nil
 }
 
 // diskView resolves the probes through a fresh repository over the directory.
